@@ -392,19 +392,19 @@ def obligations(tier):
         cx.check(AND(checks), label='tableau._measure post-state and outcome')
 
     # ---- (d) CH form: amplitudes from an arbitrary VALID CH-form state -----------------------------------------
-    def sym_ch(cx, n):
+    def sym_ch(cx, n, prefix=''):
         st = cirq.StabilizerStateChForm(n)
 
         def barr(name, shape):
             a = np.empty(shape, dtype=object if cx.mode != 'concrete' else bool)
             for idx in itertools.product(*[range(s_) for s_ in shape]):
-                a[idx] = cx.bool(name + ''.join(map(str, idx)))
+                a[idx] = cx.bool(prefix + name + ''.join(map(str, idx)))
             return a
 
         st.F, st.G, st.M = barr('F', (n, n)), barr('G', (n, n)), barr('M', (n, n))
         g = np.empty(n, dtype=object if cx.mode != 'concrete' else int)
         for i in range(n):
-            g[i] = cx.int(f'g{i}', 0, 3)
+            g[i] = cx.int(f'{prefix}g{i}', 0, 3)
         st.gamma = g
         st.v, st.s = barr('v', (n,)), barr('s', (n,))
         st.omega = 1 + 0j
@@ -599,6 +599,381 @@ def obligations(tier):
             for si, xs_ in enumerate([(0,), (1,), (2,), (3,)]):
                 nm = f'chform.rule.{rname}.n2.x{xs_[0]}'
                 obs.append(Obligation(nm, lambda cx, rname=rname, xs_=xs_: chrule_body(cx, rname, xs=xs_, nq=2), twin=(lambda cx, rname=rname, xs_=xs_: chrule_body(cx, rname, wrong=True, xs=xs_, nq=2)) if si == 0 else None, opts={'weight': 10, 'vc_timeout_ms': 120000}, desc=CHR_DESC))
+
+    # ---- (d3) CH-form MEASUREMENT (project_Z, _measure, measure), copy, kron ---------------------------------------
+    # Semantics used by the oracles (nothing of it is read off the CH representation):
+    #   * the amplitudes a0[y] = <y|psi> of the state BEFORE the call are taken through inner_product_of_state_and_x
+    #     (tied to the matrices by the chform.gate.* obligations) before the code under test runs (no copy() involved);
+    #   * supp = {y : a0[y] != 0} (decided by the solver under the path condition); a stabilizer state has amplitudes
+    #     of equal modulus on its support, so P(Z_q = z) = |supp_z| / |supp| and the normalisation of the projected state
+    #     is sqrt(|supp| / |supp_z|) (sqrt 2 when both outcomes are possible, 1 when the outcome is definite);
+    #   * the sampling algorithm (Bravyi et al., section 4.1) draws one bit per superposed position of U_H|s>; U_C
+    #     permutes basis states, so the number of draws is log2 |supp|.
+    import math as _math
+
+    def _valid_ch_envs(n, prefix=''):
+        """every valid n-qubit CH tuple (F, G, M, gamma, v, s) by brute force over the representation invariant,
+        written independently of cirq: source of the explicit concrete validation points"""
+        rng = range(n)
+        envs = []
+        mats = [[list(b[i * n:(i + 1) * n]) for i in rng] for b in itertools.product([0, 1], repeat=n * n)]
+        for F in mats:
+            G = next((G_ for G_ in mats if all(sum(F[i][k] * G_[j][k] for k in rng) % 2 == int(i == j) for i in rng for j in rng)), None)
+            if G is None:
+                continue
+            for M in mats:
+                FM = [[sum(F[i][k] * M[j][k] for k in rng) % 2 for j in rng] for i in rng]
+                if any(FM[i][j] != FM[j][i] for i in rng for j in rng):
+                    continue
+                for hi in itertools.product([0, 1], repeat=n):
+                    for v in itertools.product([0, 1], repeat=n):
+                        for s_ in itertools.product([0, 1], repeat=n):
+                            env = {}
+                            for i in rng:
+                                env[f'{prefix}g{i}'] = FM[i][i] + 2 * hi[i]
+                                env[f'{prefix}v{i}'] = bool(v[i])
+                                env[f'{prefix}s{i}'] = bool(s_[i])
+                                for j in rng:
+                                    env[f'{prefix}F{i}{j}'] = bool(F[i][j])
+                                    env[f'{prefix}G{i}{j}'] = bool(G[i][j])
+                                    env[f'{prefix}M{i}{j}'] = bool(M[i][j])
+                            envs.append(env)
+        return envs
+
+    _ENVS = {}
+
+    def ch_points(count, n=2, offset=0, extra=None, prefix=''):
+        """`count` explicit validation points: valid CH states spread over the whole enumeration (+ extra variables)"""
+        if (n, prefix) not in _ENVS:
+            _ENVS[(n, prefix)] = _valid_ch_envs(n, prefix)
+        envs = _ENVS[(n, prefix)]
+        pts = []
+        for j in range(count):
+            env = dict(envs[(offset + j * 397) % len(envs)])
+            if extra:
+                env.update(extra(j))
+            pts.append(env)
+        return pts
+
+    def ch_amps(st):
+        return [st.inner_product_of_state_and_x(int(y)) for y in range(2**st.n)]
+
+    def ch_support(cx, a):
+        """basis states with non-zero amplitude; the solver decides under the path condition (forks only if open)"""
+        out = []
+        for y, ay in enumerate(a):
+            if cx.mode == 'concrete' or isinstance(ay, (int, float, complex)):
+                zero = abs(complex(ay)) < 1e-9
+            else:
+                zero = bool(ay == 0)
+            if not zero:
+                out.append(y)
+        return out
+
+    def ch_clone(st):
+        """harness-side copy (numpy copies of the arrays; does not use StabilizerStateChForm.copy)"""
+        c = cirq.StabilizerStateChForm(st.n)
+        for nm in ('F', 'G', 'M', 'gamma', 'v', 's'):
+            setattr(c, nm, np.array(getattr(st, nm), dtype=getattr(st, nm).dtype, copy=True))
+        c.omega = st.omega
+        return c
+
+    def qbit(y, q, n):
+        return (y >> (n - 1 - q)) & 1
+
+    class Script(np.random.RandomState):
+        """scripted generator: every call is recorded (name, args, kwargs); randint returns the next scripted bit: a
+        solver variable (symbolic 0/1 integer) or, for the distribution obligations, the next bit of an enumerated string"""
+
+        def __init__(self, cx, bits=None, prefix='coin'):
+            super().__init__(0)
+            self.cx, self.bits, self.prefix, self.calls = cx, bits, prefix, []
+
+        def randint(self, *a, **k):
+            i = len(self.calls)
+            self.calls.append(('randint', tuple(a), tuple(sorted(k.items()))))
+            if self.bits is not None:
+                return int(self.bits[i]) if i < len(self.bits) else 0
+            return self.cx.int(f'{self.prefix}{i}', 0, 1)
+
+        def _other(name):
+            def f(self, *a, **k):
+                self.calls.append((name, tuple(a), tuple(sorted(k.items()))))
+                raise AssertionError(f'scripted generator: the measurement code called prng.{name}{a} (documented: one randint(2) per superposed position)')
+
+            return f
+
+        for _n in ('random_sample', 'random', 'rand', 'choice', 'uniform', 'randn', 'bytes', 'binomial', 'random_integers', 'permutation', 'shuffle', 'seed'):
+            locals()[_n] = _other(_n)
+        del _n
+
+    def draws_ok(prng, count):
+        return len(prng.calls) == count and all(c[0] == 'randint' and c[1] in ((2,), (0, 2)) and c[2] == () for c in prng.calls)
+
+    def projected(a0, supp, cond, n, x):
+        """amplitude <x| of the normalised projection of the old state on Z_q = (-1)^o for all (q, o) in cond (0 when impossible)"""
+        sz = [y for y in supp if all(qbit(y, q, n) == o for q, o in cond)]
+        if not sz or x not in sz:
+            return 0
+        return _math.sqrt(len(supp) / len(sz)) * a0[x]
+
+    def cvec(cx, vals):
+        return np.array(list(vals), dtype=object if cx.mode != 'concrete' else complex)
+
+    OMEGA0 = 1j  # non-trivial global phase of the symbolic start state (exact in floats)
+
+    def projz_body(cx, wrong=False, qz=None, n=2):
+        q, z = qz if qz is not None else (cx.choose('q', n), cx.choose('z', 2))
+        st = sym_ch(cx, n)
+        st.omega = OMEGA0
+        a0 = ch_amps(st)
+        supp = ch_support(cx, a0)
+        st.project_Z(q, z)
+        exp = [projected(a0, supp, [(q, (1 - z) if wrong else z)], n, x) for x in range(2**n)]
+        cx.close(cvec(cx, ch_amps(st)), cvec(cx, exp), label=f'chform.project_Z(q={q}, z={z}) amplitudes (normalised projection, phase kept)')
+
+    PZ_DESC = 'StabilizerStateChForm.project_Z(q, z) from an ARBITRARY valid CH-form state (2 qubits; F, G, M, gamma, v, s symbolic under the representation invariant, omega = i), every q and z: every amplitude of the new state is the old amplitude times sqrt(|supp|/|supp_z|) (sqrt 2 when both outcomes are possible, 1 when Z_q is definite) on basis states with x_q = z and 0 elsewhere (all of them 0 when z is the impossible outcome)'
+    if tier != 'quick' and os.environ.get('C13_PZ3'):
+        for q_ in range(3):
+            obs.append(Obligation(f'chform.measure.project_Z.n3.q{q_}', lambda cx, q_=q_: projz_body(cx, qz=(q_, cx.choose('z', 2)), n=3), twin=(lambda cx, q_=q_: projz_body(cx, wrong=True, qz=(q_, cx.choose('z', 2)), n=3)), points=ch_points(4, n=3, offset=q_), opts={'weight': 40, 'vc_timeout_ms': 300000}, desc=PZ_DESC))
+    for q_ in range(2):
+        for z_ in range(2):
+            obs.append(Obligation(f'chform.measure.project_Z.q{q_}z{z_}', lambda cx, qz=(q_, z_): projz_body(cx, qz=qz), twin=(lambda cx, qz=(q_, z_): projz_body(cx, wrong=True, qz=qz)), points=ch_points(6, offset=11 * (2 * q_ + z_)), opts={'weight': 12, 'vc_timeout_ms': 120000}, desc=PZ_DESC))
+
+    def chmeasure_body(cx, wrong=False, axes=(0,), via='_measure', n=2):
+        st = sym_ch(cx, n)
+        st.omega = OMEGA0
+        a0 = ch_amps(st)
+        supp = ch_support(cx, a0)
+        prng = Script(cx)
+        if via == '_measure':
+            outs = [int(st._measure(q, prng)) for q in axes]
+        else:
+            outs = [int(o) for o in st.measure(list(axes), prng)]
+        # oracle: sequential Born rule on the support; draws: log2 |current support| per measurement
+        cur, draws, possible = list(supp), 0, True
+        for q, o in zip(axes, outs):
+            draws += int(round(_math.log2(len(cur)))) if cur else 0
+            cur = [y for y in cur if qbit(y, q, n) == o]
+            possible = possible and bool(cur)
+        cx.check(len(outs) == len(axes) and all(o in (0, 1) for o in outs) and draws_ok(prng, draws), label=f'chform.{via}: one outcome bit per axis; one randint(2) per superposed position (log2 |supp| draws per measurement), nothing else drawn')
+        cx.check(possible, label=f'chform.{via}: the returned outcomes have non-zero probability (definite Z_q -> that value, repeated axis -> repeated value)')
+        cond = [(q, o) for q, o in zip(axes, outs)]
+        if wrong:
+            cond[-1] = (cond[-1][0], 1 - cond[-1][1])
+        exp = [projected(a0, supp, cond, n, x) for x in range(2**n)]
+        cx.close(cvec(cx, ch_amps(st)), cvec(cx, exp), label=f'chform.{via}(axes={list(axes)}) post-state = normalised projection on the returned outcomes')
+
+    ME_DESC = 'StabilizerStateChForm._measure(q, prng) / measure(axes, prng) from an ARBITRARY valid 2-qubit CH-form state with a SCRIPTED generator (every drawn bit a solver variable, every generator call recorded), axes: one qubit, both orders of two qubits, the same qubit twice: the outcomes have non-zero Born probability (the definite value when Z_q is definite, the same value when an axis is measured again), exactly log2|current supp| calls randint(2) per measurement and no other generator call, post-state = normalised projection of the old state on the returned outcomes (amplitude by amplitude, phase kept)'
+    for via, axes_menu in (('_measure', [(0,), (1,)]), ('measure', [(0,), (1,), (0, 1), (1, 0), (0, 0), (1, 1)])):
+        for ax_ in axes_menu:
+            if tier == 'quick' and via == 'measure' and ax_ in ((0,), (1,), (1, 1)):
+                continue  # single axes go through _measure above; (1, 1) is the mirror image of (0, 0): thorough tier
+            obs.append(Obligation(f'chform.measure.{via}.q' + ''.join(map(str, ax_)), lambda cx, ax_=ax_, via=via: chmeasure_body(cx, axes=ax_, via=via), twin=(lambda cx, ax_=ax_, via=via: chmeasure_body(cx, wrong=True, axes=ax_, via=via)), points=ch_points(8, offset=5 + 3 * sum(ax_) + len(ax_), extra=lambda j: {'coin0': j % 2, 'coin1': (j // 2) % 2, 'coin2': (j // 4) % 2}), opts={'weight': 12, 'vc_timeout_ms': 120000}, desc=ME_DESC))
+
+    def chdist_body(cx, wrong=False, q=None):
+        n = 2
+        q = cx.choose('q', n) if q is None else q
+        st0 = sym_ch(cx, n)
+        st0.omega = OMEGA0
+        a0 = ch_amps(st0)
+        supp = ch_support(cx, a0)
+        k = int(round(_math.log2(len(supp))))
+        ones = 0
+        calls_ok = True
+        for bits in itertools.product([0, 1], repeat=k):
+            st = ch_clone(st0)
+            prng = Script(cx, bits=bits)
+            ones = ones + st._measure(q, prng)
+            calls_ok = calls_ok and draws_ok(prng, k)
+        n1 = sum(1 for y in supp if qbit(y, q, n) == 1)
+        # Born rule on a stabilizer state: P(1) = |supp_1| / |supp|; over all 2^k scripted bit strings (k = number of draws)
+        exp_ones = (2**k) * n1 // len(supp)
+        if wrong:
+            exp_ones = exp_ones + 1
+        cx.check(calls_ok, label='chform._measure: every scripted bit string consumes exactly log2|supp| draws')
+        cx.check(ones == exp_ones, label='chform._measure: number of scripted bit strings giving outcome 1 = 2^k P(Z_q = 1) (half of them when both outcomes are possible, all / none when definite)')
+
+    DI_DESC = 'distribution of StabilizerStateChForm._measure(q, prng) over ALL scripted bit strings, from an ARBITRARY valid 2-qubit CH-form state: with k = log2|supp| draws, the real code is run on every one of the 2^k bit strings (on harness-made copies of the same symbolic state) and the number of strings that return 1 must be 2^k |supp_1|/|supp| - exactly half when both outcomes are possible (each superposed position draws its own independent bit), all or none when Z_q is definite'
+    for q_ in range(2):
+        obs.append(Obligation(f'chform.measure.distribution.q{q_}', lambda cx, q_=q_: chdist_body(cx, q=q_), twin=(lambda cx, q_=q_: chdist_body(cx, wrong=True, q=q_)), points=ch_points(6, offset=17 + q_), opts={'weight': 12, 'vc_timeout_ms': 120000}, desc=DI_DESC))
+
+    # ---- (d4) copies do not share mutable state: StabilizerStateChForm.copy / StabilizerChFormSimulationState.copy / kron
+    COPY_OPS = [('H', cirq.H, 1), ('S', cirq.S, 1), ('CX', cirq.CX, 2), ('measure', None, 1), ('X', cirq.X, 1), ('CZ', cirq.CZ, 2), ('project_Z', None, 1)]
+
+    def ch_apply(cx, name, g, ax, qs, tgt, prng):
+        """modify the CH-form object `tgt` in place through the real code"""
+        if name == 'project_Z':
+            tgt.project_Z(ax[0], 1)
+        elif name == 'measure':
+            tgt.measure([ax[0]], prng)
+        else:
+            cirq.act_on(g.on(*[qs[a] for a in ax]), cirq.StabilizerChFormSimulationState(qubits=qs, prng=prng, initial_state=tgt))
+
+    def chcopy_body(cx, wrong=False, level='state', deep=True, ops=(0,)):
+        n = 2
+        name, g, k = COPY_OPS[ops[cx.choose('op', len(ops))]]
+        axes = list(itertools.permutations(range(n), k))
+        if tier == 'quick' and name == 'H':
+            axes = axes[:1]
+        ax = axes[cx.choose('axes', len(axes))]
+        side = cx.choose('modified', 2)  # 0: the COPY is modified and the original must keep its state; 1: the other way round
+        st = sym_ch(cx, n)
+        st.omega = OMEGA0
+        a0 = ch_amps(st)
+        qs = cirq.LineQubit.range(n)
+        prng = Script(cx)
+        if level == 'state':
+            cp = st.copy(deep_copy_buffers=deep)
+            tgt, keep = (cp, st) if side == 0 else (st, cp)
+            ch_apply(cx, name, g, ax, qs, tgt, prng)
+        else:
+            sim = cirq.StabilizerChFormSimulationState(qubits=qs, prng=prng, initial_state=st)
+            sim2 = sim.copy(deep_copy_buffers=deep)
+            tsim, ksim = (sim2, sim) if side == 0 else (sim, sim2)
+            cirq.act_on(cirq.measure(qs[ax[0]], key='m') if name == 'measure' else g.on(*[qs[a] for a in ax]), tsim)
+            keep = ksim.state
+            cx.check(len(ksim.log_of_measurement_results) == 0 and (name != 'measure' or list(tsim.log_of_measurement_results) == ['m']), label='StabilizerChFormSimulationState.copy: measurement records are not shared')
+        exp = [(-a if wrong else a) for a in a0]
+        cx.close(cvec(cx, ch_amps(keep)), cvec(cx, exp), label=f'chform copy ({level}, deep_copy_buffers={deep}): {name}{list(ax)} on the ' + ('copy leaves the original' if side == 0 else 'original leaves the copy') + ' unchanged (every amplitude)')
+
+    CP_DESC = 'StabilizerStateChForm.copy(deep_copy_buffers) / StabilizerChFormSimulationState.copy(deep_copy_buffers) from an ARBITRARY valid 2-qubit CH-form state, deep_copy_buffers True and False: after one in-place operation (quick: CX for all four kinds of copy, measure with scripted bits for the deep state copy and the shallow simulation-state copy, H on qubit 0 for the latter; thorough: H, S, CX, measure, X, CZ, project_Z for all; every placement) on the copy, every amplitude of the ORIGINAL is what it was before, and vice versa (operation on the original, amplitudes of the copy); for the simulation state also that measurement records are not shared. 8 explicit concrete validation points per obligation (real numpy buffers)'
+    NAMES_ = [o_[0] for o_ in COPY_OPS]
+    for level in ('state', 'simstate'):
+        for deep in (True, False):
+            if tier == 'quick':
+                # quick: CX (G, F, M, gamma in place) for all four kinds of copy, measure (update_sum: v, s and, through
+                # _CNOT/_CZ/_S_right, the matrices) for the default state copy and for the shallow simulation-state copy
+                # that Simulator.run makes between repetitions, H (568 paths per placement) on qubit 0 for the latter;
+                # everything else is in the thorough tier
+                groups = [('CX', 'measure') if (level == 'simstate') != deep else ('CX',)] + ([('H',)] if (level == 'simstate' and not deep) else [])
+            else:
+                groups = [(o_,) for o_ in NAMES_ if not (level == 'simstate' and o_ == 'project_Z')]
+            for grp in groups:
+                nm = f'chform.copy.{level}.' + ('deep' if deep else 'shallow') + '.' + '_'.join(grp)
+                ops_ = tuple(NAMES_.index(o_) for o_ in grp)
+                obs.append(Obligation(nm, lambda cx, level=level, deep=deep, ops_=ops_: chcopy_body(cx, level=level, deep=deep, ops=ops_), twin=(lambda cx, level=level, deep=deep, ops_=ops_: chcopy_body(cx, wrong=True, level=level, deep=deep, ops=ops_)), points=ch_points(8, offset=23 + (7 if deep else 0), extra=lambda j, m_=len(ops_): {'choose:op': j % m_, 'choose:axes': (j // 2) % 2, 'choose:modified': (j // 4) % 2, 'coin0': j % 2, 'coin1': (j // 2) % 2}), opts={'weight': 12 if len(grp) > 1 or grp[0] != 'H' else 25, 'vc_timeout_ms': 120000}, desc=CP_DESC))
+
+    def chkron_body(cx, wrong=False, shape=(1, 1)):
+        na, nb = shape
+        n = na + nb
+        a, b = sym_ch(cx, na, 'a'), sym_ch(cx, nb, 'b')
+        a.omega, b.omega = 1j, -1 + 0j
+        aa, bb = ch_amps(a), ch_amps(b)
+        kr = a.kron(b)
+        exp = [aa[x >> nb] * bb[x & (2**nb - 1)] for x in range(2**n)]
+        if wrong:
+            exp[cx.choose('wrong_entry', 2**n)] *= -1
+        cx.close(cvec(cx, ch_amps(kr)), cvec(cx, exp), label=f'chform.kron{shape}: amplitude of |x_a x_b> is the product of the amplitudes (phase included)')
+        # no shared buffers between the product and its factors
+        objs = [kr, a, b]
+        saved = [cvec(cx, exp), cvec(cx, aa), cvec(cx, bb)]
+        which = cx.choose('modified', 3)
+        tgt = objs[which]
+        ops1 = [('H', cirq.H), ('S', cirq.S)]
+        gname, g = ops1[cx.choose('op', len(ops1))]
+        axq = cx.choose('axis', tgt.n)
+        qs = cirq.LineQubit.range(tgt.n)
+        cirq.act_on(g.on(qs[axq]), cirq.StabilizerChFormSimulationState(qubits=qs, prng=Script(cx), initial_state=tgt))
+        for j in range(3):
+            if j != which:
+                cx.close(cvec(cx, ch_amps(objs[j])), saved[j], label=f'chform.kron{shape}: {gname}({axq}) on ' + ('the product' if which == 0 else 'a factor') + ' leaves the other objects unchanged')
+
+    KR_DESC = 'StabilizerStateChForm.kron of two ARBITRARY valid CH-form states (1 + 1 qubits; thorough adds 2 + 1 and 1 + 2), omega = i and -1: every amplitude of the product state is the product of the amplitudes of the factors (big-endian, first factor most significant, phase included), and the product shares no buffer with its factors (H / S applied to any one of the three objects leaves the amplitudes of the other two unchanged)'
+
+    def kron_points(shape, count):
+        pa, pb = ch_points(count, n=shape[0], offset=3, prefix='a'), ch_points(count, n=shape[1], offset=9, prefix='b')
+        return [dict(list(ea.items()) + list(eb.items()) + [('choose:modified', j % 3), ('choose:op', (j // 3) % 2), ('choose:axis', j % 2)]) for j, (ea, eb) in enumerate(zip(pa, pb))]
+
+    for shape in ([(1, 1)] if tier == 'quick' else [(1, 1), (2, 1), (1, 2)]):
+        obs.append(Obligation('chform.kron.' + '_'.join(map(str, shape)), lambda cx, shape=shape: chkron_body(cx, shape=shape), twin=(lambda cx, shape=shape: chkron_body(cx, wrong=True, shape=shape)), points=kron_points(shape, 6), opts={'weight': 8, 'vc_timeout_ms': 120000}, desc=KR_DESC))
+
+    # ---- (d5) CliffordSimulator.run (repetitions >= 2) / simulate on circuits with MID-CIRCUIT measurements ---------
+    # solver-driven bounded exploration: circuits from a menu, every scripted random bit of every repetition is a solver
+    # variable (each feasible bit string is a path); oracle: dense state vector walked in the harness with the matrices
+    def run_circuits():
+        q0, q1, q2 = cirq.LineQubit.range(3)
+        return [
+            ('bell_mid', cirq.Circuit(cirq.H(q0), cirq.measure(q0, key='a'), cirq.CNOT(q0, q1), cirq.measure(q1, key='b'), cirq.measure(q0, key='c'))),
+            ('deterministic', cirq.Circuit(cirq.X(q0), cirq.CNOT(q0, q1), cirq.measure(q0, q1, key='a'), cirq.CNOT(q1, q0), cirq.S(q1), cirq.H(q0), cirq.H(q0), cirq.measure(q0, key='b'), cirq.CZ(q0, q1), cirq.measure(q1, key='c'))),
+            ('ghz_cz_h', cirq.Circuit(cirq.H(q0), cirq.CNOT(q0, q1), cirq.measure(q0, key='a'), cirq.CZ(q0, q1), cirq.H(q1), cirq.measure(q1, key='b'), cirq.S(q1), cirq.measure(q0, key='c'))),
+            ('plus_plus', cirq.Circuit(cirq.H(q0), cirq.H(q1), cirq.measure(q0, key='a'), cirq.CZ(q0, q1), cirq.H(q1), cirq.measure(q1, key='b'), cirq.CNOT(q1, q2), cirq.measure(q2, key='c'))),
+            ('s_phase', cirq.Circuit(cirq.H(q0), cirq.S(q0), cirq.measure(q1, key='a'), cirq.H(q0), cirq.measure(q0, key='b'), cirq.H(q0), cirq.S(q0), cirq.S(q0), cirq.H(q0), cirq.measure(q0, key='c'))),
+        ]
+
+    RUNC = run_circuits()
+
+    def dense_walk(circuit, qubits, recorded):
+        """walk the circuit on a dense state vector: gates by their matrices, measurements post-selected on the RECORDED
+        bits (Born rule: the recorded bit must have non-zero probability).  Returns (psi, draws, possible); draws = sum
+        over single-qubit measurements of log2 |support of the whole state| (unsplit CH form: one bit per superposed position)"""
+        from oracles import embed as EM_
+
+        n = len(qubits)
+        psi = np.zeros(2**n, dtype=complex)
+        psi[0] = 1
+        draws = 0
+        for op in circuit.all_operations():
+            idx = [qubits.index(q_) for q_ in op.qubits]
+            if cirq.is_measurement(op):
+                bits = recorded[cirq.measurement_key_name(op)]
+                if len(bits) != len(idx):
+                    return psi, draws, False
+                for qi, bv in zip(idx, bits):
+                    supp = [y for y in range(2**n) if abs(psi[y]) > 1e-9]
+                    draws += int(round(_math.log2(len(supp))))
+                    keep = [y for y in supp if qbit(y, qi, n) == int(bv)]
+                    if not keep:
+                        return psi, draws, False
+                    new = np.zeros_like(psi)
+                    new[keep] = psi[keep]
+                    psi = new / np.sqrt(np.sum(np.abs(new) ** 2))
+            else:
+                psi = np.asarray(EM_.embed_matrix(np.asarray(cirq.unitary(op), dtype=complex), idx, n), dtype=complex) @ psi
+        return psi, draws, True
+
+    def simrun_body(cx, wrong=False):
+        cname, circuit = RUNC[cx.choose('circuit', len(RUNC))]
+        reps = 2 + cx.choose('reps', 2)
+        split = bool(cx.choose('split', 2))
+        qubits = sorted(circuit.all_qubits())
+        prng = Script(cx)
+        res = cirq.CliffordSimulator(seed=prng, split_untangled_states=split).run(circuit, repetitions=reps)
+        keys = sorted(res.records)
+        shapes_ok = keys == ['a', 'b', 'c'] and all(res.records[k_].shape[:2] == (reps, 1) for k_ in keys)
+        cx.check(shapes_ok, label=f'CliffordSimulator.run[{cname}]: one record per key and repetition')
+        total, possible = 0, True
+        for r_ in range(reps):
+            rec = {k_: [int(b_) for b_ in res.records[k_][r_][0]] for k_ in keys}
+            if wrong and r_ == reps - 1:
+                rec['c'][0] = 1 - rec['c'][0]
+            _psi, d_, ok_ = dense_walk(circuit, qubits, rec)
+            total += d_
+            possible = possible and ok_
+        cx.check(possible, label=f'CliffordSimulator.run[{cname}], repetitions={reps}, split={split}: in EVERY repetition the records form a trajectory of non-zero Born probability from |0..0> (deterministic outcomes have their value in every repetition)')
+        if not split:
+            cx.check(draws_ok(prng, total), label=f'CliffordSimulator.run[{cname}]: generator calls = one randint(2) per superposed position per measurement per repetition')
+        if cname == 'deterministic':
+            ref = cirq.Simulator(seed=0).run(circuit, repetitions=reps)
+            cx.check(all(np.array_equal(ref.records[k_], res.records[k_]) for k_ in keys), label='CliffordSimulator.run[deterministic] records == cirq.Simulator records')
+
+    SR_DESC = 'BOUNDED EXPLORATION (solver-enumerated bit strings): CliffordSimulator(seed=scripted generator, split_untangled_states False/True).run(circuit, repetitions 2 and 3) on 5 circuits with mid-circuit measurements followed by CNOT / CZ / S / H and further measurements (random, outcome-correlated and deterministic ones): every scripted random bit of every repetition is a solver variable; in every repetition the recorded bits must be a trajectory of non-zero Born probability of the dense state-vector walk from |0..0> (so each repetition starts from the un-measured state), generator calls as documented, deterministic circuit equal to cirq.Simulator'
+    obs.append(Obligation('chform.measure.simulator_run', simrun_body, twin=lambda cx: simrun_body(cx, wrong=True), kind='bounded-exploration', points=[{'choose:circuit': j % len(RUNC), 'choose:reps': (j // 5) % 2, 'choose:split': (j // 2) % 2, **{f'coin{i}': (j * 7 + i * i + i // 3) % 2 for i in range(12)}} for j in range(10)], opts={'weight': 15, 'max_paths': 20000}, desc=SR_DESC))
+
+    def simsim_body(cx, wrong=False):
+        cname, circuit = RUNC[cx.choose('circuit', len(RUNC))]
+        split = bool(cx.choose('split', 2))
+        qubits = sorted(circuit.all_qubits())
+        prng = Script(cx)
+        res = cirq.CliffordSimulator(seed=prng, split_untangled_states=split).simulate(circuit)
+        rec = {k_: [int(b_) for b_ in v_] for k_, v_ in res.measurements.items()}
+        psi, d_, ok_ = dense_walk(circuit, qubits, rec) if sorted(rec) == ['a', 'b', 'c'] else (None, 0, False)
+        cx.check(ok_ and (split or draws_ok(prng, d_)), label=f'CliffordSimulator.simulate[{cname}]: measurements form a possible trajectory; generator calls as documented')
+        vec = res.final_state.state_vector()
+        cx.close(cvec(cx, list(vec)), cvec(cx, list(-psi if wrong else psi)), label=f'CliffordSimulator.simulate[{cname}], split={split}: final state vector = dense walk post-selected on the recorded outcomes (global phase included)')
+
+    SS_DESC = 'BOUNDED EXPLORATION (solver-enumerated bit strings): CliffordSimulator.simulate on the same 5 mid-circuit-measurement circuits with a scripted generator: recorded outcomes possible, final CH-form state vector (final_state.state_vector(), a copy of the simulation state) equals the dense walk post-selected on the recorded outcomes including the global phase'
+    obs.append(Obligation('chform.measure.simulator_simulate', simsim_body, twin=lambda cx: simsim_body(cx, wrong=True), kind='bounded-exploration', points=[{'choose:circuit': j % len(RUNC), 'choose:split': (j // 5) % 2, **{f'coin{i}': (j * 3 + i) % 2 for i in range(6)}} for j in range(10)], opts={'weight': 6}, desc=SS_DESC))
 
     # n = 3 is not enumerable: _rowsum branches on every bit of both rows (Python-level `if` and int()), up to 16
     # outcomes per qubit and row pair, 5 row pairs: more than 10^6 paths (three shards ran > 75 CPU-minutes each without
